@@ -72,6 +72,30 @@ func ruleConverterPerItem(c *Ctx) {
 								bad = append(bad, fmt.Sprintf("%s: %s fills one %s variable declared outside its loop for every item: a field that is only assigned conditionally keeps the previous item's value", c.P.pos(x.Pos()), funcName(f), derefType(x.Type()).String()))
 							}
 						}
+					case *ssa.Store:
+						// a field of the option copied from the configuration only under some condition
+						// (other than the parse it depends on): the option can go out without it
+						fa, isFA := x.Addr.(*ssa.FieldAddr)
+						if !isFA {
+							continue
+						}
+						al, isAl := fa.X.(*ssa.Alloc)
+						if !isAl || !converterCopiedField[faField(fa).Name()] {
+							continue
+						}
+						if !configDerived(x.Val, 0) {
+							continue
+						}
+						n++
+						for _, r := range *al.Referrers() {
+							ld, isLoad := r.(*ssa.UnOp)
+							if !isLoad || ld.Op != token.MUL {
+								continue
+							}
+							if !(b == ld.Block() || b.Dominates(ld.Block())) {
+								bad = append(bad, fmt.Sprintf("%s: %s copies the configured %s into the option only on some paths: an option can be produced without it (a cache without its configured size falls back to the built-in default)", c.P.pos(x.Pos()), funcName(f), faField(fa).Name()))
+							}
+						}
 					case *ssa.Phi:
 						if !inLoop(b) {
 							continue
@@ -898,4 +922,370 @@ func reachingStores(cell ssa.Value, load ssa.Instruction) ([]*ssa.Store, bool) {
 	}
 	scan(b, idx)
 	return out, complete
+}
+
+// ruleFilterRoundTrip: a response saved without a content-type filter (nil: the
+// default applies) is restored without one: the reader compiles the stored
+// pattern only when it is not empty. (regexp.Compile("") matches everything.)
+func ruleFilterRoundTrip(c *Ctx) {
+	fn := c.P.Method("cache", "HTTPResponse", "FromBytes")
+	if fn == nil {
+		c.undecided("filter-roundtrip", "HTTPResponse.FromBytes", "-", "not found")
+		return
+	}
+	n, compiled := 0, 0
+	bad := []string{}
+	sim := c.P.Simulate(fn, SimConfig{MaxVisits: 2}, func(pr *PathResult) {
+		if pr.Exit != "return" || len(pr.Results) != 1 {
+			return
+		}
+		if k, isNil := pr.Facts.Decide(eqTerm(pr.Results[0], nilTerm(nil))); !pr.Results[0].IsNil() && !(k && isNil) {
+			return
+		}
+		n++
+		for _, e := range pr.Events {
+			if e.Kind != "call" || e.Callee == nil || !strings.HasPrefix(e.Callee.String(), "regexp.") || !strings.Contains(e.Callee.Name(), "Compile") || len(e.Args) == 0 {
+				continue
+			}
+			compiled++
+			pat := e.Args[0]
+			f := factsAt(c.P, pr, e)
+			k1, isEmpty := f.Decide(eqTerm(pat, strTerm("")))
+			k2, lenZero := f.Decide(eqTerm(&Term{Op: "len", Type: tInt, Args: []*Term{stripConvTerm(pat)}}, intTerm(0)))
+			if !((k1 && !isEmpty) || (k2 && !lenZero)) {
+				bad = append(bad, fmt.Sprintf("%s: the stored filter pattern is compiled without having been found non-empty: an entry saved without a filter (the default applies) comes back with a filter that matches every content type, so the restored entry compresses what the live one did not", c.P.pos(e.Instr.Pos())))
+			}
+		}
+	})
+	if sim.Overflow || n == 0 {
+		c.undecided("filter-roundtrip", funcName(fn), c.P.pos(fn.Pos()), "no successful decoding path found")
+		return
+	}
+	c.check(len(bad) == 0, "filter-roundtrip", funcName(fn), c.P.pos(fn.Pos()), fmt.Sprintf("%d successful paths, %d compile the stored pattern, each only when it is not empty", n, compiled), strings.Join(uniq(bad), " || "), n)
+}
+
+// converterCopiedField: option fields that are plain copies of the configuration field of the same name.
+var converterCopiedField = map[string]bool{"Name": true, "Size": true, "Store": true, "Addr": true, "Cache": true, "Compress": true, "Upstream": true,
+	"Locations": true, "Prefixes": true, "Hosts": true, "Rewrites": true, "Policy": true, "Backup": true, "LogFormat": true, "HealthCheck": true, "AcceptEncoding": true, "EnableH2C": true}
+
+// configDerived: v is read from a field of a configuration struct.
+func configDerived(v ssa.Value, d int) bool {
+	if d > 4 {
+		return false
+	}
+	switch x := v.(type) {
+	case *ssa.UnOp:
+		return configDerived(x.X, d+1)
+	case *ssa.FieldAddr:
+		fv := faField(x)
+		return fv.Pkg() != nil && fv.Pkg().Path() == pkgPath("config")
+	case *ssa.Field:
+		if st, ok := x.X.Type().Underlying().(*types.Struct); ok {
+			fv := st.Field(x.Field)
+			return fv.Pkg() != nil && fv.Pkg().Path() == pkgPath("config")
+		}
+	case *ssa.Convert:
+		return configDerived(x.X, d+1)
+	case *ssa.ChangeType:
+		return configDerived(x.X, d+1)
+	}
+	return false
+}
+
+// ruleMiddlewareChain: the proxying server installs no library middleware that
+// rewrites what pike decided (body, encoding, headers): besides pike's own
+// handlers only elton's logger, error and fresh middlewares.
+func ruleMiddlewareChain(c *Ctx) {
+	fn := c.P.Method("server", "server", "Start")
+	if fn == nil {
+		c.undecided("middleware-chain", "server.Start", "-", "not found")
+		return
+	}
+	allowed := map[string]bool{"NewLogger": true, "NewDefaultError": true, "NewError": true, "NewDefaultFresh": true, "NewFresh": true, "NewRecover": true, "NewStats": true}
+	n := 0
+	bad := []string{}
+	var source func(v ssa.Value, d int) *ssa.Function
+	source = func(v ssa.Value, d int) *ssa.Function {
+		if d > 4 {
+			return nil
+		}
+		switch x := v.(type) {
+		case *ssa.Call:
+			return x.Call.StaticCallee()
+		case *ssa.ChangeType:
+			return source(x.X, d+1)
+		case *ssa.MakeInterface:
+			return source(x.X, d+1)
+		case *ssa.UnOp:
+			// an element of the variadic list
+			if ia, ok := x.X.(*ssa.IndexAddr); ok {
+				for _, r := range *ia.Referrers() {
+					if st, ok := r.(*ssa.Store); ok {
+						return source(st.Val, d+1)
+					}
+				}
+			}
+		}
+		return nil
+	}
+	for f := range staticScope(fn, "server", 3) {
+		for _, b := range f.Blocks {
+			for _, in := range b.Instrs {
+				ci, ok := in.(ssa.CallInstruction)
+				if !ok {
+					continue
+				}
+				sc := ci.Common().StaticCallee()
+				if sc == nil || sc.Name() != "Use" || sc.Signature.Recv() == nil || !strings.HasSuffix(sc.Signature.Recv().Type().String(), "elton.Elton") {
+					continue
+				}
+				// the handlers: stored into the variadic slice, or into a slice built by appends
+				var arrays []*ssa.Alloc
+				var collect func(v ssa.Value, d int)
+				collect = func(v ssa.Value, d int) {
+					if d > 8 {
+						return
+					}
+					switch x := v.(type) {
+					case *ssa.Slice:
+						if arr, ok := x.X.(*ssa.Alloc); ok {
+							arrays = append(arrays, arr)
+						} else {
+							collect(x.X, d+1)
+						}
+					case *ssa.Phi:
+						for _, e := range x.Edges {
+							collect(e, d+1)
+						}
+					case *ssa.Call:
+						if bi, ok := x.Call.Value.(*ssa.Builtin); ok && bi.Name() == "append" {
+							for _, a := range x.Call.Args {
+								collect(a, d+1)
+							}
+						}
+					}
+				}
+				for _, a := range ci.Common().Args[1:] {
+					collect(a, 0)
+				}
+				for _, arr := range arrays {
+					for _, r := range *arr.Referrers() {
+						ia, ok := r.(*ssa.IndexAddr)
+						if !ok {
+							continue
+						}
+						for _, rr := range *ia.Referrers() {
+							st, ok := rr.(*ssa.Store)
+							if !ok {
+								continue
+							}
+							n++
+							ctor := source(st.Val, 0)
+							if ctor == nil || isPikeFunc(ctor) {
+								continue
+							}
+							if ctor.Pkg != nil && strings.HasSuffix(ctor.Pkg.Pkg.Path(), "elton/middleware") && !allowed[ctor.Name()] {
+								bad = append(bad, fmt.Sprintf("%s: the proxying server installs the library middleware %s: it post-processes the responses pike has negotiated (encoding, body or headers are no longer decided by pike's own rules)", c.P.pos(in.Pos()), ctor.Name()))
+							}
+						}
+					}
+				}
+			}
+		}
+	}
+	if n < 4 {
+		c.undecided("middleware-chain", funcName(fn), c.P.pos(fn.Pos()), fmt.Sprintf("only %d middleware registrations found", n))
+		return
+	}
+	c.check(len(bad) == 0, "middleware-chain", funcName(fn), c.P.pos(fn.Pos()), fmt.Sprintf("%d middlewares: pike's own plus elton's logger / error / fresh", n), strings.Join(uniq(bad), " || "), n)
+}
+
+// ruleMergeUnconditional: the location's configured headers are added next to
+// what is there whatever is there: the merge never looks at the destination.
+func ruleMergeUnconditional(c *Ctx) {
+	roots := []*ssa.Function{c.P.Method("location", "Location", "AddRequestHeader"), c.P.Method("location", "Location", "AddResponseHeader")}
+	n, adds := 0, 0
+	bad := []string{}
+	for _, root := range roots {
+		if root == nil {
+			c.undecided("merge-unconditional", "location.Location", "-", "AddRequestHeader / AddResponseHeader not found")
+			return
+		}
+		for f := range staticScope(root, "location", 2) {
+			// the destination: the header value Add is called on
+			dsts := map[ssa.Value]bool{}
+			for _, b := range f.Blocks {
+				for _, in := range b.Instrs {
+					if ci, ok := in.(ssa.CallInstruction); ok {
+						if sc := ci.Common().StaticCallee(); sc != nil && sc.String() == "(net/http.Header).Add" {
+							dsts[ci.Common().Args[0]] = true
+							adds++
+						}
+					}
+					// header.Add handed to a helper as a method value
+					if mc, ok := in.(*ssa.MakeClosure); ok {
+						if w, ok := mc.Fn.(*ssa.Function); ok && strings.HasPrefix(w.Synthetic, "bound method wrapper") && len(mc.Bindings) == 1 {
+							if mo, ok := w.Object().(*types.Func); ok && mo.FullName() == "(net/http.Header).Add" {
+								dsts[mc.Bindings[0]] = true
+								adds++
+							}
+						}
+					}
+				}
+			}
+			for _, b := range f.Blocks {
+				for _, in := range b.Instrs {
+					switch x := in.(type) {
+					case ssa.CallInstruction:
+						sc := x.Common().StaticCallee()
+						if sc == nil || !strings.HasPrefix(sc.String(), "(net/http.Header).") || len(x.Common().Args) == 0 || !dsts[x.Common().Args[0]] {
+							continue
+						}
+						n++
+						switch sc.Name() {
+						case "Get", "Values":
+							bad = append(bad, fmt.Sprintf("%s: %s reads the header it is adding to (%s): a configured header is then added or not depending on what the client / upstream sent", c.P.pos(in.Pos()), funcName(f), sc.Name()))
+						case "Set", "Del":
+							bad = append(bad, fmt.Sprintf("%s: %s calls %s on the header it is adding to", c.P.pos(in.Pos()), funcName(f), sc.Name()))
+						}
+					case *ssa.Lookup:
+						if dsts[x.X] {
+							n++
+							bad = append(bad, fmt.Sprintf("%s: %s looks a key up in the header it is adding to", c.P.pos(in.Pos()), funcName(f)))
+						}
+					}
+				}
+			}
+		}
+	}
+	if adds == 0 {
+		c.undecided("merge-unconditional", "location.Location", "-", "no Header.Add found in the merge")
+		return
+	}
+	c.check(len(bad) == 0, "merge-unconditional", "location.Location.mergeHeader", c.P.pos(roots[0].Pos()), fmt.Sprintf("%d operations on the destination header: Add only", n), strings.Join(uniq(bad), " || "), n)
+}
+
+// ruleMapDeleteVisitsAll: util.MapDelete (the prune step of every registry's
+// reset) visits every key: its Range callback never returns false.
+func ruleMapDeleteVisitsAll(c *Ctx) {
+	fn := c.P.Func("util", "MapDelete")
+	if fn == nil {
+		c.undecided("map-delete-visits-all", "util.MapDelete", "-", "not found")
+		return
+	}
+	n := 0
+	bad := []string{}
+	for _, lit := range fn.AnonFuncs {
+		if lit.Signature.Results().Len() != 1 {
+			continue
+		}
+		c.P.Simulate(lit, SimConfig{}, func(pr *PathResult) {
+			if pr.Exit != "return" || len(pr.Results) != 1 {
+				return
+			}
+			n++
+			if !pr.Results[0].IsTrue() {
+				bad = append(bad, "the Range callback can return "+prettyTerm(pr.Results[0])+" on path ["+condString(pr.Conds)+"]: the walk stops there, so when a reload removes several entries only some of them are deleted (the others keep running with their old configuration)")
+			}
+		})
+	}
+	if n == 0 {
+		c.undecided("map-delete-visits-all", funcName(fn), c.P.pos(fn.Pos()), "Range callback not recognised")
+		return
+	}
+	c.check(len(bad) == 0, "map-delete-visits-all", funcName(fn), c.P.pos(fn.Pos()), fmt.Sprintf("%d paths of the Range callback, all continue the walk", n), strings.Join(uniq(bad), " || "), n)
+}
+
+// rulePathValidator: a value accepted by the xURLPath validator (location
+// prefixes, health-check paths) starts with '/': the consumers compare it with
+// request URIs and hand it to the pool as a path.
+func rulePathValidator(c *Ctx) {
+	var lits []*ssa.Function
+	for _, f := range c.P.allFuncs {
+		if !inPkg(f, "config") {
+			continue
+		}
+		for _, b := range f.Blocks {
+			for _, in := range b.Instrs {
+				call, ok := in.(*ssa.Call)
+				if !ok || len(call.Call.Args) < 2 {
+					continue
+				}
+				cst, ok := call.Call.Args[0].(*ssa.Const)
+				if !ok {
+					continue
+				}
+				if tag, _ := constTerm(cst.Value, cst.Type()).StrVal(); tag != "xURLPath" {
+					continue
+				}
+				for _, a := range call.Call.Args[1:] {
+					switch x := stripConv(a).(type) {
+					case *ssa.MakeClosure:
+						if lf, ok := x.Fn.(*ssa.Function); ok {
+							lits = append(lits, lf)
+						}
+					case *ssa.Function:
+						lits = append(lits, x)
+					}
+				}
+			}
+		}
+	}
+	if fnv := validatorTable(c.P)["xURLPath"]; fnv != nil {
+		lits = append(lits, fnv)
+	}
+	if len(lits) == 0 {
+		c.undecided("path-validator", "config.xURLPath", "-", "validator not found")
+		return
+	}
+	n := 0
+	bad := []string{}
+	for _, lit := range lits {
+		c.P.Simulate(lit, SimConfig{}, func(pr *PathResult) {
+			if pr.Exit != "return" || len(pr.Results) != 1 {
+				return
+			}
+			if pr.Results[0].IsFalse() {
+				return
+			}
+			n++
+			slash := false
+			for _, l := range pr.Conds {
+				at := l.Atom
+				if l.Pol && at.Op == "call" && at.Fn != nil && at.Fn.String() == "strings.HasPrefix" && len(at.Args) == 2 {
+					if v, ok := at.Args[1].StrVal(); ok && strings.HasPrefix(v, "/") {
+						slash = true
+					}
+				}
+				if l.Pol && at.Op == "eq" && len(at.Args) == 2 {
+					for k := 0; k < 2; k++ {
+						if v, ok := at.Args[k].IntVal(); ok && v == '/' && at.Args[1-k].Op == "idx" && isZeroInt(at.Args[1-k].Args[1]) {
+							slash = true
+						}
+					}
+				}
+			}
+			res := pr.Results[0]
+			if !slash && res.contains(func(x *Term) bool {
+				if x.Op == "eq" && len(x.Args) == 2 {
+					for k := 0; k < 2; k++ {
+						if v, ok := x.Args[k].IntVal(); ok && v == '/' && x.Args[1-k].Op == "idx" {
+							return true
+						}
+					}
+				}
+				return x.Op == "call" && x.Fn != nil && x.Fn.String() == "strings.HasPrefix"
+			}) {
+				slash = true // `return value != "" && value[0] == '/'`: the result is the test itself
+			}
+			if !slash {
+				bad = append(bad, "the validator can accept a value without having found that it starts with '/' (an absolute URI or '*' passes, is saved, and then never matches a request URI) on path ["+condString(pr.Conds)+"]")
+			}
+		})
+	}
+	if n == 0 {
+		c.undecided("path-validator", "config.xURLPath", c.P.pos(lits[0].Pos()), "no accepting path found")
+		return
+	}
+	c.check(len(bad) == 0, "path-validator", "config.xURLPath", c.P.pos(lits[0].Pos()), fmt.Sprintf("%d accepting paths, each has established a leading '/'", n), strings.Join(uniq(bad), " || "), n)
 }
